@@ -74,9 +74,14 @@ def check_description(run, i, decls, nvariants, tmpdir=None):
     if tmpdir is not None:
         path = os.path.join(tmpdir, "main.fcp")
         text = S.print_schema(decls, S.Style(run.rng("style", i, "file")))
-        with open(path, "w") as f:
-            f.write(text)
-        bad = compare(run, decls, text, "file", via="file", path=path)
+        # a third of the files is saved with CRLF, a few with lone-CR line endings (a schema edited on
+        # another platform): files are text, the line-ending convention must not change the tree
+        nl = {0: "\n", 1: "\r\n", 2: "\n", 3: "\n", 4: "\r\n", 5: "\n"}[(i // 10) % 6]
+        with open(path, "w", newline="") as f:
+            f.write(text.replace("\n", nl))
+        if nl != "\n":
+            run.count("crlf_files")
+        bad = compare(run, decls, text, "file" + ("-crlf" if nl != "\n" else ""), via="file", path=path)
         if bad:
             run.violation("%s (get_fcp on a file)" % bad[1], bad[2])
             return
@@ -161,7 +166,7 @@ def run(run):
 
 
 def conclude(run):
-    run.require("parses", "trees_equal", "file_parses", "mod_parses")
+    run.require("parses", "trees_equal", "file_parses", "mod_parses", "crlf_files")
     missing = [f for f in sorted(PC.REQUIRED_FEATURES) if run.counters.get("feature/" + f, 0) == 0]
     if missing:
         run.inconclusive_because("grammar features never generated: %s" % missing)
